@@ -9,6 +9,7 @@ EXPLANATION = ('Contracts on the real Beam.density / Beam.direction / SingleRayA
                'z-range clamp, Gaussian envelope formula with sigma_{x,y}^2 = sigma^2 + (z tan alpha)^2, clamp radius, composite stopping '
                'coefficient tied to ghost sums, source density P/(E m e)/v and the exp(-cumulative_trapezoid(S)/v) attenuation factor; lemmas: '
                'cross-section integral (trusted Gaussian integral), constancy without stopping, monotone decay, streamline invariants.')
+EXPLANATION += '  _populate_stopping_data_cache: one entry per plasma species, the stopping rate fetched from the current atomic data source.'
 N = "cherab/core/beam/node.pyx"
 A = "cherab/core/model/attenuator/singleray.pyx"
 NAMED_CONSTANTS = {'elementary_charge', 'atomic_mass', 'speed_of_light', 'Planck'}
